@@ -45,6 +45,12 @@ def rcons(H, tier, cumulative=False):
         out.append(("ResourceUnavailable", [con("ResourceUnavailable", "c1", resource=R("w"), list_of_time_intervals=[iv])]))
     for a, b in [((0, 1), (2, 3)), ((1, 2), (3, 5)), ((0, 2), (1, 3))]:
         out.append(("ResourceUnavailable", [con("ResourceUnavailable", "c1", resource=R("w"), list_of_time_intervals=[a, b])]))
+    out.append(("ResourceUnavailable", [con("ResourceUnavailable", "c1", resource=R("w"), list_of_time_intervals=[(0, 1), (2, 3), (4, 5)])]))
+    out.append(("ResourceUnavailable", [con("ResourceUnavailable", "c1", resource=R("w"), list_of_time_intervals=[(4, 5), (0, 1), (2, 3)])]))
+    out.append(("ResourceInterrupted", [con("ResourceInterrupted", "c1", resource=R("w"), list_of_time_intervals=[(0, 1), (2, 3), (4, 5)])]))
+    for kind in ("max", "min", "exact"):
+        out.append(("WorkLoad", [con("WorkLoad", "c1", resource=R("w"), kind=kind,
+                                     dict_time_intervals_and_bound={"$tupkeys": [[[0, 1], 1], [[1, 3], 1], [[3, 5], 1]]})]))
     # workload
     for iv in sub:
         L = iv[1] - iv[0]
